@@ -8,7 +8,7 @@ LEVEL = dict(
     rule_text="reader tables = ISO 32000-1 tables, exhaustively over the 256 byte values: white-space, delimiters, regular characters, "
               "end-of-line markers, literal-string escapes (incl. octal 1-3 digits and line continuation), #xx in names, hex digits, "
               "20-byte xref entry terminators and kinds; the stream body is exactly Length bytes; PNG predictor row formulas and the "
-              "Paeth predictor (used on cross-reference and object streams) have the specified shape; filter dispatch table",
+              "Paeth predictor (used on cross-reference and object streams) have the specified shape; filter dispatch table; PNG frame row discipline (every emitted row is `current` after decode_row and becomes `previous`); streams with a deferred /Length are completed only after every insertion into document.objects",
     explanation="Decides only the lexical/tabular part of reading any producer's files. Does not decide the structural freedoms "
                 "(multi-section tables, xref-stream field widths and Index ranges, object streams, indirect lengths, leading junk), "
                 "which depend on run-time arithmetic over the file's contents.",
